@@ -32,6 +32,10 @@ type Result struct {
 	Sub int
 	// Engine is set when the harness itself failed (exit 2, never a VIOLATION).
 	Engine string
+	// Poison: the case left the process in a state that would disturb later cases (e.g. a goroutine of the
+	// code under test that spins or is wedged for good); the worker retires after this case and the driver
+	// continues the shard in a fresh process.
+	Poison bool
 }
 
 func (r *Result) Fail(clause, detail string) {
